@@ -137,7 +137,7 @@ def run_unit(unit, rec):
     Abar, c0, lo, hi = B.model_of(spec)
     m, n = Abar.shape
     unique_x = (n <= m) or proc == "minvar"
-    tol = {"gaussian": 4e-2 if sol == "default" else 4e-4, "poisson": 2e-3, "minvar": 4e-2 if sol == "default" else 2e-3, "excitation": 2e-2}[proc]
+    tol = {"gaussian": 4e-2 if sol == "default" else 4e-4, "poisson": 1e-2, "minvar": 4e-2 if sol == "default" else 2e-3, "excitation": 2e-2}[proc]
     base = dict(config=cfg, procedure=proc, solver=sol)
     try:
         from dreye.api import _verif
